@@ -302,6 +302,39 @@ fn examine(label: &str, fs: &FileSet, plan: &Plan, scratch: &std::path::Path, ev
             note("first-call-same-object", &o, &mut diffs);
         }
     }
+    // concurrent calls on the SAME FilesToRead object (it is Sync): every call has to give the bytes
+    // of a call made alone
+    if fs.files.len() >= 2 {
+        let shared = fs.to_read();
+        let outs: Vec<GenOutcome> = std::thread::scope(|s| {
+            let hs: Vec<_> = (0..4)
+                .map(|_| {
+                    s.spawn(|| {
+                        zeep::install_panic_hook();
+                        let mut v = vec![];
+                        for _ in 0..3 {
+                            v.push(match zeep::read_prepared(&shared) {
+                                Ok(doc) => {
+                                    let mut buf = Vec::new();
+                                    match doc(&mut buf) {
+                                        zeep::WriteOutcome::Ok => GenOutcome::Ok(String::from_utf8_lossy(&buf).into_owned()),
+                                        w => GenOutcome::WriteErr(format!("{w:?}")),
+                                    }
+                                }
+                                Err(e) => GenOutcome::ReadErr(format!("{e:?}")),
+                            });
+                        }
+                        v
+                    })
+                })
+                .collect();
+            hs.into_iter().flat_map(|h| h.join().unwrap_or_else(|_| vec![GenOutcome::Panic("thread".into())])).collect()
+        });
+        for o in &outs {
+            ev.evaluations += 1;
+            note("concurrent-calls-same-object", o, &mut diffs);
+        }
+    }
     // directory arrangements: the same contents put into a directory in different creation orders
     // (what the directory lists first differs by file system: creation order or a hash of the names),
     // read through the directory entry point the CLI uses; then the same with an unreadable
@@ -386,7 +419,7 @@ pub fn run(tier: Tier) -> i32 {
         "C12",
         tier,
         "exploration",
-        "inputs: every repository schema/WSDL + proptest-generated order-sensitive WSDLs (2-9 operations, 1-4 parts per message, body with/without parts=, headers, types inline or in an imported file) + generated import sets whose registered file names are distinct but alike (shared last path segment, case, ./ prefix) + schema sets from the model generator (several namespaces, members of foreign namespaces). Per accepted input the output bytes are compared with the first output across: R repeated in-process generations (each HashMap gets fresh RandomState keys), T threads, K fresh processes, all registration orders of Files::add (<= 4 files; sampled above), three calls on the SAME FilesToRead object, two writes of the same document, and (multi-file sets) eight directory arrangements read through utils::read_input_file_and_xsd_files_at_path: different file creation orders, and an unreadable non-UTF-8 stray sibling under five names created first or last (there the outcomes only have to agree with each other). Non-trivial: input with >= 2 operations or >= 2 message parts or >= 2 files; distinct by input text.",
+        "inputs: every repository schema/WSDL + proptest-generated order-sensitive WSDLs (2-9 operations, 1-4 parts per message, body with/without parts=, headers, types inline or in an imported file) + generated import sets whose registered file names are distinct but alike (shared last path segment, case, ./ prefix) + schema sets from the model generator (several namespaces, members of foreign namespaces). Per accepted input the output bytes are compared with the first output across: R repeated in-process generations (each HashMap gets fresh RandomState keys), T threads, K fresh processes, all registration orders of Files::add (<= 4 files; sampled above), three calls on the SAME FilesToRead object, 4 threads x 3 concurrent calls on one shared FilesToRead (multi-file sets), two writes of the same document, and (multi-file sets) eight directory arrangements read through utils::read_input_file_and_xsd_files_at_path: different file creation orders, and an unreadable non-UTF-8 stray sibling under five names created first or last (there the outcomes only have to agree with each other). Non-trivial: input with >= 2 operations or >= 2 message parts or >= 2 files; distinct by input text.",
     );
     ev.assume("hash seeds cannot be chosen, only sampled: each in-process HashMap and each fresh process draws new RandomState keys");
     let plan = Plan { repeats: tier.pick(6, 24), threads: tier.pick(4, 16), procs: tier.pick(8, 64) };
